@@ -91,9 +91,9 @@ def run(ctx):
             # cascades need a real clock (about a second each): a seeded sample
             rng.shuffle(cs)
             cs = cs[:160 if quick else 1200]
-        elif not quick and len(cs) > 9000:
-            rng.shuffle(cs)
-            cs = cs[:9000]
+        elif not quick and "samples2" in cfg and len(cs) > 4000:
+            rng.shuffle(cs)      # two parallel items: the trace validation explores their interleavings
+            cs = cs[:4000]
         cases += cs
     # behaviours in which a single attempt times out while the caller still waits (about 1-3 s each)
     r = _tlc_ok(ctx, "MC_cases_timeouts", count=False)
@@ -112,7 +112,7 @@ def run(ctx):
     ctx.cover(behaviours_replayed=len(cases))
 
     # ---- 4. replay on the real getters
-    rep = ctx.go_driver("getter", env={"VERIF_CASES": cases_path, "VERIF_SEEDED": 150 if quick else 1500,
+    rep = ctx.go_driver("getter", env={"VERIF_CASES": cases_path, "VERIF_SEEDED": 150 if quick else 800,
                                        "VERIF_PAR": 12}, timeout=1500 if quick else 5400)
     summ = rep.get("summary", {})
     cnt = rep.get("counters", {})
